@@ -80,7 +80,16 @@ FunctionSubstringAfter::execute(
 
         if (theSecondStringLength == 0)
         {
-            return arg1;
+            // The result is the string value of the first argument,
+            // which is the argument itself only if it's a string...
+            if (arg1->getType() == XObject::eTypeString)
+            {
+                return arg1;
+            }
+            else
+            {
+                return executionContext.getXObjectFactory().createStringAdapter(arg1, executionContext);
+            }
         }
         else
         {
